@@ -685,6 +685,42 @@ def nesting_atoms(fn: ast.AST, target: ast.AST) -> List[Tuple[ast.AST, bool]]:
     return out
 
 
+def path_atoms(fn: ast.AST, target: ast.AST) -> List[Tuple[ast.AST, bool]]:
+    """nesting_atoms plus what *guard clauses* imply: an earlier `if T: return/raise/continue/break` in an enclosing block means T is
+    false where *target* stands (and the mirror image for an else that leaves); plus, inside `except KeyError:` of a try whose body
+    subscripts D[k], the atom `k in D` is false.  (Names of a test are assumed not to be rebound between the guard and the target.)"""
+    out = list(nesting_atoms(fn, target))
+
+    def leaves(blk) -> bool:
+        return bool(blk) and isinstance(blk[-1], (ast.Return, ast.Raise, ast.Continue, ast.Break))
+
+    def rec(stmts) -> bool:
+        for i, st in enumerate(stmts):
+            if st is target or any(x is target for x in ast.walk(st)):
+                for prev in stmts[:i]:
+                    if isinstance(prev, ast.If):
+                        if leaves(prev.body) and not leaves(prev.orelse):
+                            out.extend(implied(prev.test, False))
+                        elif leaves(prev.orelse) and not leaves(prev.body):
+                            out.extend(implied(prev.test, True))
+                if isinstance(st, ast.Try):
+                    for h in st.handlers:
+                        if any(x is target for b in h.body for x in ast.walk(b)) and h.type is not None and "KeyError" in ast.unparse(h.type):
+                            for sub in [x for b in st.body for x in ast.walk(b) if isinstance(x, ast.Subscript) and isinstance(x.ctx, ast.Load)]:
+                                out.append((ast.Compare(left=sub.slice, ops=[ast.In()], comparators=[sub.value]), False))
+                for fld in ("body", "orelse", "finalbody"):
+                    blk = getattr(st, fld, None)
+                    if isinstance(blk, list) and blk and isinstance(blk[0], ast.stmt) and any(x is target for b in blk for x in ast.walk(b)):
+                        return rec(blk)
+                for h in getattr(st, "handlers", []):
+                    if any(x is target for b in h.body for x in ast.walk(b)):
+                        return rec(h.body)
+                return True
+        return False
+    rec(list(getattr(fn, "body", [])))
+    return out
+
+
 def under_condition(fn: ast.AST, target: ast.AST, pred) -> bool:
     """Is *target* nested under ifs that imply an atom (atom, truth) accepted by *pred*?"""
     return any(pred(a, t) for a, t in nesting_atoms(fn, target))
